@@ -29,12 +29,12 @@ def scenarios(ctx):
     for _ in range(200 if thorough else 40):
         o = "".join(rng.choice("SWRHC") for _ in range(rng.randrange(3, 7)))
         S.append("scn %s path %s" % (rng.choice(["udp", "tcp"]), o))
-    for k in ["piggy", "separate", "dupack", "reset", "silent", "cancel"]:
+    for k in ["piggy", "separate", "dupack", "reset", "silent", "cancel", "refused"]:
         S.append("scn udp do " + k)
     S.append("scn udp earlyrel 4")
     S.append("scn udp dupreq 12")
     S.append("scn udp bwwritedup 3")
-    for k in ["ok", "silent"]:
+    for k in ["ok", "silent", "refused"]:
         S.append("scn tcp do " + k)
     for n in [0, 1, 3, 6]:
         S.append("scn udp observe %d" % n)
